@@ -1,0 +1,51 @@
+//! Bounds recorders placed immediately before each `get_unchecked*` / `read_unaligned` /
+//! `from_raw_parts_mut` of the crate. Only compiled with `--cfg roaring_verif`; no behaviour change
+//! for in-bounds accesses. An out-of-bounds index is recorded and turned into a panic *before* the
+//! unchecked access would execute.
+use std::cell::RefCell;
+
+/// Number of instrumented sites.
+pub const N_SITES: usize = 16;
+
+/// Per-site record: number of accesses, largest index seen, smallest `len - index`, violations.
+#[derive(Clone, Copy, Debug)]
+pub struct SiteRecord {
+    /// accesses through this site
+    pub count: u64,
+    /// largest index passed
+    pub max_index: usize,
+    /// smallest distance to the end (`len - index`), `usize::MAX` when never hit
+    pub min_slack: usize,
+    /// accesses with `index >= len`
+    pub violations: u64,
+}
+
+const EMPTY: SiteRecord = SiteRecord { count: 0, max_index: 0, min_slack: usize::MAX, violations: 0 };
+
+thread_local! {
+    static SITES: RefCell<[SiteRecord; N_SITES]> = const { RefCell::new([EMPTY; N_SITES]) };
+}
+
+/// Record an unchecked access `index` into something of length `len` at site `id`.
+#[inline]
+pub fn site(id: usize, index: usize, len: usize) {
+    let bad = index >= len;
+    SITES.with(|s| {
+        let mut s = s.borrow_mut();
+        let r = &mut s[id];
+        r.count += 1;
+        r.max_index = r.max_index.max(index);
+        r.min_slack = r.min_slack.min(len.wrapping_sub(index));
+        if bad {
+            r.violations += 1;
+        }
+    });
+    if bad {
+        panic!("roaring_verif: unchecked access out of bounds at site {id}: index {index} len {len}");
+    }
+}
+
+/// Return the records accumulated on this thread and reset them.
+pub fn drain() -> [SiteRecord; N_SITES] {
+    SITES.with(|s| core::mem::replace(&mut *s.borrow_mut(), [EMPTY; N_SITES]))
+}
